@@ -26,6 +26,7 @@ type godecLine struct {
 	Err   string                 `json:"err"`
 	WantD map[string]interface{} `json:"wantd"` // Decoder.Decode without UseNumber
 	ErrD  string                 `json:"errd"`
+	ErrS  string                 `json:"errs"` // Decoder after DisallowUnknownFields (the value is wantd)
 }
 
 // goTypeOf builds the Go type a zero value of the model describes.
@@ -274,7 +275,7 @@ func (e *engine) checkGoDecLine(worker int, raw []byte) error {
 		return fmt.Errorf("cannot build the Go type: %v", terr)
 	}
 	pan := e.wd.Guard(worker, hang, func() {
-		for _, api := range []string{"Unmarshal", "Decoder.Decode", "Decoder.UseNumber.Decode"} {
+		for _, api := range []string{"Unmarshal", "Decoder.Decode", "Decoder.UseNumber.Decode", "Decoder.DisallowUnknownFields.Decode"} {
 			p := reflect.New(t)
 			var err error
 			want, wantErr := ln.Want, ln.Err
@@ -284,6 +285,11 @@ func (e *engine) checkGoDecLine(worker int, raw []byte) error {
 			case "Decoder.Decode":
 				err = codec.NewDecoder(bytes.NewReader(text)).Decode(p.Interface())
 				want, wantErr = ln.WantD, ln.ErrD
+			case "Decoder.DisallowUnknownFields.Decode":
+				dec := codec.NewDecoder(bytes.NewReader(text))
+				dec.DisallowUnknownFields()
+				err = dec.Decode(p.Interface())
+				want, wantErr = ln.WantD, ln.ErrS
 			default:
 				dec := codec.NewDecoder(bytes.NewReader(text))
 				dec.UseNumber()
@@ -305,7 +311,11 @@ func (e *engine) checkGoDecLine(worker int, raw []byte) error {
 			// the standard library on the same type and text
 			sp := reflect.New(t)
 			sdec := stdjson.NewDecoder(bytes.NewReader(text))
-			if api != "Decoder.Decode" {
+			switch api {
+			case "Decoder.Decode":
+			case "Decoder.DisallowUnknownFields.Decode":
+				sdec.DisallowUnknownFields()
+			default:
 				sdec.UseNumber()
 			}
 			serr := sdec.Decode(sp.Interface())
@@ -316,7 +326,7 @@ func (e *engine) checkGoDecLine(worker int, raw []byte) error {
 			}
 		}
 	})
-	e.rep.Count("executions", 3)
+	e.rep.Count("executions", 4)
 	if pan != "" {
 		e.rep.Report(viol("panic", "the codec panicked while decoding into a typed value: "+firstLine(pan), map[string]interface{}{"api": "Unmarshal", "type": t.String()}))
 	}
